@@ -172,6 +172,7 @@ func (a *pwaligner) fillMatrix_SW() (err error) {
 	}
 
 	a.initMatrix(a.seq1.Length(), a.seq2.Length())
+	a.maxscore, a.maxi, a.maxj = .0, 0, 0
 
 	// We convert characters to indices in subst matrices
 	// once for all
@@ -369,6 +370,7 @@ func (a *pwaligner) backTrack_SW() {
 	var seq1, seq2, alistr []uint8
 	var gapscore float64
 
+	a.length, a.nbgaps, a.nbmatches, a.nbmismatches = 0, 0, 0, 0
 	a.end1 = a.maxi
 	a.end2 = a.maxj
 
